@@ -35,6 +35,10 @@ P = {'id': 'C01',
               'c_deserialize_serialize',
               'ctx_serialized_decodes',
               'xn_serialized_decodes',
+              'ctx_new_wf',
+              'ctx_new_roundtrip',
+              'order2_top_contexts',
+              'hm_of_permutes',
               'rans_step_inverse',
               'rans_no_overflow',
               'rans_roundtrip',
